@@ -1,7 +1,9 @@
 package sim
 
 import (
+	"encoding/json"
 	"fmt"
+	"os"
 	"strings"
 	"runtime"
 	"runtime/debug"
@@ -60,8 +62,16 @@ var registry = map[string][]Family{}
 func register(prop string, fams ...Family) { registry[prop] = append(registry[prop], fams...) }
 
 // ExecRun executes one run in this process.
+// LastFile, when set, receives the exact spec of the run in progress (crash
+// and hang forensics by the driver).
+var LastFile string
+
 func ExecRun(t *testing.T, spec RunSpec) (res RunResult) {
 	res.Spec = spec
+	if LastFile != "" {
+		b, _ := json.Marshal(spec)
+		os.WriteFile(LastFile, b, 0o644)
+	}
 	var tape *Tape
 	if spec.Replay {
 		tape = ReplayTape(spec.Tape)
@@ -142,7 +152,7 @@ func gcBetweenRuns() {
 
 // RunFlow executes the general client scenario for one incarnation.
 func RunFlow(w *World, spec *RunSpec, tune func(f *Flow)) *Flow {
-	f := &Flow{W: w, byTopic: map[string]*Pub{}, byID: map[uint16]*Pub{}, reqByMarker: map[string]*Req{}, OnlineConn: -1}
+	f := &Flow{W: w, byTopic: map[string]*Pub{}, byID: map[uint16]*Pub{}, reqByMarker: map[string]*Req{}, Owned: map[uint16]int{}, OnlineConn: -1}
 	w.X = f
 	f.O = drawFlowOpts(w.Tape, spec.Thorough)
 	if tune != nil {
@@ -176,6 +186,9 @@ func (f *Flow) runGeneration(adopt bool) {
 		mqtt.VerifSetReadBufSize(o.ReadBuf)
 		w.Disk.Attach(s)
 		s.Env = f.env
+		if o.NoTick {
+			s.tickW = 0
+		}
 		s.StepHook = f.stepHook
 		s.Done = f.done
 		s.Unwind = func() {
@@ -349,7 +362,7 @@ func (f *Flow) stuckWhere() string {
 }
 
 func allMonitors() []Monitor {
-	return []Monitor{&monC01{}, &monC03{}, &monC05{}, &monC08{}, &monC11{}, &monC14{}, &monC17{}, &monC18{}}
+	return []Monitor{&monC01{}, &monC03{}, &monC04{}, &monC05{}, &monC06{}, &monC07{}, &monC08{}, &monC10{}, &monC11{}, &monC14{}, &monC17{}, &monC18{}}
 }
 
 // flowFamily builds a family around the general flow. touched names the probes
@@ -413,6 +426,57 @@ func init() {
 				f.O.Requesters, f.O.PerReq = 1, 4
 			}
 		}, "resend_carried_dup")})
+	register("C04", Family{Name: "inbound", Weight: 1, Run: flowFamily(func(f *Flow) {
+		f.O.Inbound = 1 + f.W.Tape.Draw("nin4", 8)
+		f.O.InQ = [3]int{1, 1, 6}
+		f.O.Publishers = f.W.Tape.Draw("npub4", 2)
+		f.O.BreakW = 2 + f.W.Tape.Draw("breakw4", 3)
+		f.O.Budget += 3
+	}, "q2_retransmission_seen", "q2_duplicate_completed")})
+	register("C06", Family{Name: "fragments", Weight: 1, Run: flowFamily(func(f *Flow) {
+		o := &f.O
+		f.StrictInbound = true
+		// no fault other than fragmentation and progress-making expiries
+		o.Net = NetOpts{Pipe: o.Net.Pipe, ShortRead: 600, OneByteRead: 300, ReadExpiry: 150, ExpiryNeedsProgress: true}
+		o.Disk = DiskOpts{}
+		o.BreakW = 0
+		o.NoTick = true
+		o.Budget = 1000
+		o.Publishers, o.Requesters = 0, 0
+		if f.W.Tape.Flip("sub6", 400) {
+			o.Requesters, o.PerReq = 1, 3
+			o.ReqMix = [rkKinds]int{0, 0, 2, 1, 1, 2, 1}
+			o.QuitMix = [4]int{1, 0, 0, 0}
+		}
+		o.ReadBuf = []int{64, 16, 32, 256, 1024, 128 * 1024}[f.W.Tape.Draw("rbuf6", 6)]
+		o.Inbound = 1 + f.W.Tape.Draw("nin6", 8)
+		o.InSizeMix = [4]int{3, 3, 2, 1}
+		o.LongTopic = 200
+		if o.PauseTimeout == 0 {
+			o.Net.ReadExpiry = 0
+		}
+	}, "progress_making_expiry", "big_message", "short_read")})
+	register("C07", Family{Name: "inbound", Weight: 1, Run: flowFamily(func(f *Flow) {
+		f.O.Inbound = 1 + f.W.Tape.Draw("nin7", 10)
+		f.O.InSizeMix = [4]int{6, 1, 1, 1}
+		f.O.Publishers = f.W.Tape.Draw("npub7", 2)
+		f.O.Requesters = f.W.Tape.Draw("nreq7", 3)
+		f.O.PerReq = 3
+		if f.O.ReadBuf == 128*1024 {
+			f.O.ReadBuf = 256
+		}
+	}, "ack_on_new_connection", "ack_after_ownership")})
+	register("C10", Family{Name: "wedge", Weight: 1, Run: flowFamily(func(f *Flow) {
+		f.O.Inbound = 1 + f.W.Tape.Draw("nin10", 8)
+		f.O.InQ = [3]int{1, 3, 3}
+		f.O.Publishers = 1 + f.W.Tape.Draw("npub10", 2)
+		f.O.Requesters = 1 + f.W.Tape.Draw("nreq10", 3)
+		f.O.PerReq = 2 + f.W.Tape.Draw("perreq10", 4)
+		f.O.Net.WriteBreak = 60
+		f.O.Net.ShortWrite = 60
+		f.O.Budget += 4
+		f.O.Backoff = !f.W.Tape.Flip("nobackoff10", 250)
+	}, "write_break", "short_write_timeout", "backoff_checked")})
 	register("C08", Family{Name: "concurrent", Weight: 1, Run: flowFamily(func(f *Flow) {
 		f.O.Requesters = 1 + f.W.Tape.Draw("nreq", 3)
 		f.O.PerReq = 2 + f.W.Tape.Draw("perreq", 6)
